@@ -248,7 +248,7 @@ theorem isOrderCert_sound (p : ℤ) (O : Lattice) (h : isOrderCert p O = true) :
     O.denom ≠ 0 ∧ IsHNF O.basis ∧ (1 : H p) ∈ hLat p O ∧ hLat p O * hLat p O ≤ hLat p O := by
   unfold isOrderCert at h
   simp only [Bool.and_eq_true] at h
-  obtain ⟨⟨hw, h1⟩, hc⟩ := h
+  obtain ⟨⟨⟨hw, h1⟩, hc⟩, _⟩ := h
   obtain ⟨hd, hn⟩ := latWf_sound O hw
   exact ⟨hd, hn, one_mem_of_contains p O hd hn h1, prodsContained_sound p O O O hc hd hd hd hn⟩
 
@@ -489,8 +489,8 @@ theorem maxOrderOk_sound (p : ℤ) (hp : p ≠ 0) (t : ℤ × List (List ℤ)) (
   split at h
   · rename_i O hO
     simp only [Bool.and_eq_true] at h
-    obtain ⟨a, b, c, d⟩ := isOrderCert_sound p O h.1
-    exact ⟨O, hO, a, b, c, d, hasMaximalDisc_sound p hp O h.2⟩
+    obtain ⟨a, b, c, d⟩ := isOrderCert_sound p O h.1.1
+    exact ⟨O, hO, a, b, c, d, hasMaximalDisc_sound p hp O h.1.2⟩
   · simp at h
 
 /-- `normCovolOk` ⇒ `covol(I) = N(I)²·covol(O)`, i.e. the stored norm is the square root of the index `[O : I]` -/
